@@ -122,3 +122,29 @@ def scalar_exact_value(s, dt):
     if s["kind"] == "t0d_other" and dt in ("f64", "c128"):
         return float(torch.tensor(float(s["value"]), dtype=torch.float32))
     return scalar_as_complex(s)
+
+
+# ------------------------------------------------------------------------------------------------
+# argument forms of integer (list) arguments: axis / dim / mode / shape parameters
+# A non-plain form (torch-style negative value, numpy integers, a tuple for a list) has a dense counterpart, but the
+# library documents python ints / lists only. The oracle is therefore accept-or-correct: the call may raise (clean
+# rejection, any exception), but a returned object must equal the reference of the normalised argument.
+
+INT_FORMS = ["plain"] * 6 + ["neg", "np", "tuple"]
+
+
+def int_form(allowed=("neg", "np", "tuple")):
+    return st.sampled_from([f for f in INT_FORMS if f == "plain" or f in allowed])
+
+
+def apply_int_form(vals, form, d, scalar=False):
+    """vals: python ints in [0, d). Returns the argument in the drawn form (a scalar if `scalar`)."""
+    import numpy as np
+    vals = list(vals)
+    if form == "neg":
+        vals = [v - d for v in vals]
+    elif form == "np":
+        vals = [np.int64(v) for v in vals]
+    if scalar:
+        return vals[0]
+    return tuple(vals) if form == "tuple" else vals
